@@ -15,7 +15,9 @@
 (***************************************************************************)
 EXTENDS P_Sock, TLC
 
-CONSTANTS NT, Ops1, Ops2, Ops3, MaxOps, Total, MaxBytesSet, SendSizes, KCap, KIn, EnvKinds, MaxEnv
+CONSTANTS NT, Ops1, Ops2, Ops3, MaxOps, Total, MaxBytesSet, SendSizes, KCap, KIn, EnvKinds, MaxEnv,
+          DeferClose     \* TRUE: uvloop - socket.close() is deferred while the socket is registered with
+                         \* add_reader / add_writer (known finding F16); FALSE: stock asyncio
 
 VARIABLES sk,    \* socket + stream: kin, fed, rdoff, peof, kroom, drained, closing, shutwr, reset, rg, sg,
                  \*                  rfut, sfut (task whose future is registered, 0 = none), nops, nenv
@@ -27,11 +29,12 @@ Tasks == 1..NT
 OpsOf(t) == CASE t = 1 -> Ops1 [] t = 2 -> Ops2 [] OTHER -> Ops3
 Min(a, b) == IF a < b THEN a ELSE b
 Idle == [pc |-> "idle", op |-> "none", arg |-> 0]
-Par == [boundA |-> KCap, boundB |-> KIn, pausedA |-> 1, pausedB |-> 1, protoA |-> 0, protoB |-> 0]
+Par == [boundA |-> KCap, boundB |-> KIn, pausedA |-> 1, pausedB |-> 1, protoA |-> 0, protoB |-> 0,
+        deferA |-> IF DeferClose THEN 1 ELSE 0, deferB |-> 0]
 
 Init ==
   /\ sk = [kin |-> 0, fed |-> 0, rdoff |-> 0, peof |-> FALSE, kroom |-> KCap, drained |-> 0,
-           closing |-> FALSE, shutwr |-> FALSE, reset |-> FALSE, rg |-> 0, sg |-> 0, rfut |-> 0, sfut |-> 0,
+           closing |-> FALSE, zombie |-> FALSE, shutwr |-> FALSE, reset |-> FALSE, rg |-> 0, sg |-> 0, rfut |-> 0, sfut |-> 0,
            nops |-> 0, nenv |-> 0]
   /\ task = [t \in Tasks |-> Idle]
   /\ hv = [p |-> SockP0(Par), bad |-> {}]
@@ -40,11 +43,13 @@ Observe(es) == LET r == SockApplySeq(hv.p, es) IN hv' = [p |-> r.p, bad |-> hv.b
 REnd(t, res, off, len) == [ev |-> "rend", s |-> "A", t |-> t, res |-> res, off |-> off, len |-> len, match |-> 1]
 SEnd(t, res) == [ev |-> "send", s |-> "A", t |-> t, res |-> res]
 CanCall(t) == task[t].pc = "idle" /\ sk.nops < MaxOps
+\* the file descriptor is really closed (recv / send raise OSError, mapped to ClosedResourceError)
+Shut(s) == s.closing /\ ~s.zombie
 
 \* resolve the registered futures that the new socket state makes ready
 Ready(s, tk) ==
-  LET rd == s.rfut # 0 /\ (s.kin > 0 \/ s.peof \/ s.reset \/ s.closing)
-      wr == s.sfut # 0 /\ (s.kroom > 0 \/ s.reset \/ s.closing) IN
+  LET rd == s.rfut # 0 /\ (s.kin > 0 \/ s.peof \/ s.reset \/ Shut(s))
+      wr == s.sfut # 0 /\ (s.kroom > 0 \/ s.reset \/ Shut(s)) IN
   [s |-> [s EXCEPT !.rfut = IF rd THEN 0 ELSE @, !.sfut = IF wr THEN 0 ELSE @],
    tk |-> [t \in Tasks |-> IF rd /\ t = s.rfut THEN [tk[t] EXCEPT !.pc = "r_run"]
                            ELSE IF wr /\ t = s.sfut THEN [tk[t] EXCEPT !.pc = "s_run"]
@@ -70,7 +75,7 @@ RStep(t) ==
                                       /\ task' = [task EXCEPT ![t] = Idle]
                                       /\ Observe(<<REnd(t, r, off, len)>>)
               n == Min(task[t].arg, sk.kin) IN
-          IF sk.closing THEN fin("closed", 0, 0, sk)
+          IF Shut(sk) THEN fin("closed", 0, 0, sk)
           ELSE IF sk.reset THEN fin("broken", 0, 0, sk)
           ELSE IF sk.kin > 0 THEN fin("ok", sk.rdoff, n, [sk EXCEPT !.kin = @ - n, !.rdoff = @ + n])
           ELSE IF sk.peof THEN fin("eos", 0, 0, sk)
@@ -97,18 +102,24 @@ SStep(t) ==
                             /\ task' = [task EXCEPT ![t] = Idle]
                             /\ Observe(<<SEnd(t, r)>>)
               m == Min(task[t].arg, sk.kroom) IN
-          IF sk.closing THEN fin("closed", sk)
+          IF Shut(sk) THEN fin("closed", sk)
           ELSE IF sk.reset \/ sk.shutwr THEN fin("broken", sk)
           ELSE IF m = task[t].arg THEN fin("ok", [sk EXCEPT !.kroom = @ - m])
           ELSE /\ sk' = [sk EXCEPT !.kroom = 0, !.sg = t, !.sfut = t]     \* partial send, then EAGAIN
                /\ task' = [task EXCEPT ![t].pc = "s_wait", ![t].arg = @ - m]
                /\ UNCHANGED hv
 
-\* aclose(): no await; closes the socket and resolves pending futures
+\* aclose(): no await; closes the socket and resolves pending futures.
+\* With DeferClose the descriptor stays open as long as a reader or a writer is registered: with one of
+\* them its done-callback unregisters it before the task runs again (closed for real, the task sees
+\* OSError); with BOTH registered each woken task finds the descriptor still open (kept by the other's
+\* registration), gets BlockingIOError and registers again: the socket is never closed (zombie) and both
+\* calls keep waiting - this is F16.
 CCall(t) ==
   /\ CanCall(t) /\ "close" \in OpsOf(t)
   /\ Observe(<<[ev |-> "close", s |-> "A"]>>)
-  /\ Settle2([sk EXCEPT !.closing = TRUE, !.nops = @ + 1], task)
+  /\ Settle2([sk EXCEPT !.closing = TRUE, !.nops = @ + 1,
+                        !.zombie = @ \/ (DeferClose /\ ~sk.closing /\ sk.rfut # 0 /\ sk.sfut # 0)], task)
 
 \* send_eof(): inside the send guard
 EofCall(t) ==
@@ -180,7 +191,8 @@ FairSpec == /\ Spec
             /\ WF_vars((\E k \in 1..KIn : PeerWrite(k)) \/ PeerEof)
             /\ WF_vars(\E k \in 1..KCap : Drain(k))
 
-PropertyHolds == hv.bad = {}
+PropertyHolds == hv.bad \subseteq (IF DeferClose THEN {"ClosedUnixStreamStaysOpenOnUvloop"} ELSE {})
+PropertyHoldsStrict == hv.bad = {}       \* violated with DeferClose = TRUE: the model reproduces F16
 InRecv == {t \in Tasks : task[t].op = "recv" /\ task[t].pc \in {"r_wait", "r_run"}}
 InSend == {t \in Tasks : task[t].op = "send" /\ task[t].pc \in {"s_wait", "s_run"}}
 GuardsExact ==
@@ -189,8 +201,8 @@ GuardsExact ==
 \* no lost wake-up: a task waits for readiness only while the socket is not ready
 WaitersCanBeWoken ==
   \A t \in Tasks :
-    /\ task[t].pc = "r_wait" => sk.rfut = t /\ sk.kin = 0 /\ ~sk.peof /\ ~sk.reset /\ ~sk.closing
-    /\ task[t].pc = "s_wait" => sk.sfut = t /\ sk.kroom = 0 /\ ~sk.reset /\ ~sk.closing
+    /\ task[t].pc = "r_wait" => sk.rfut = t /\ sk.kin = 0 /\ ~sk.peof /\ ~sk.reset /\ ~Shut(sk)
+    /\ task[t].pc = "s_wait" => sk.sfut = t /\ sk.kroom = 0 /\ ~sk.reset /\ ~Shut(sk)
 \* the kernel buffers are the only buffers
 KernelBounded == sk.kin <= KIn /\ sk.kroom >= 0 /\ hv.p.received["B"] + sk.kin = sk.fed
 Live ==
